@@ -158,10 +158,7 @@ def installify(ctx, F):
               for e in ctors)
     ctx.ob(R, 'installify|destdir-for-host-paths', ok and neg, fy.node,
            'host (non-cross) install paths do not carry destdir')
-    raises = [n for f in [fy] + [x._func for x in ast.walk(fy.node)
-                                 if isinstance(x, ast.FunctionDef) and
-                                 x is not fy.node and
-                                 getattr(x, '_func', None)]
+    raises = [n for f in F.reach(fy, 2) if f.module is fy.module
               for n in walk_no_nested(f.node) if isinstance(n, ast.Raise)
               for n in [(n, f)]]
     ext = False
@@ -203,11 +200,14 @@ def outputs(ctx, F):
            'host mapping must hold the DESTDIR-aware host twin and target '
            'mapping the cross twin of every (sub)file')
     ok = False
-    for n in walk_no_nested(ai.node):
-        if isinstance(n, ast.Raise):
-            c = F.control(n, ai)
-            if has(c, 'host', 'path'):
-                ok = True
+    for g in F.reach(ai, 1):
+        if g.cls is not ai.cls:
+            continue
+        for n in walk_no_nested(g.node):
+            if isinstance(n, ast.Raise):
+                c = F.control(n, g)
+                if has(c, 'host', 'path'):
+                    ok = True
     ctx.ob(R, 'InstallOutputs|conflicting-locations-rejected', ok, ai.node,
            'installing one file to two locations is not rejected')
     ld = F.fn(FT + 'LinkedBinary.install_deps')
